@@ -339,3 +339,79 @@ def run_offsets(payload):
             o["raised"] = f"{type(ex).__name__}: {ex}"
         res.append(o)
     return res
+
+
+KIND = {"FullCaseCitation": "full", "FullLawCitation": "full", "FullJournalCitation": "full", "ShortCaseCitation": "short",
+        "SupraCitation": "supra", "IdCitation": "id", "ReferenceCitation": "ref", "UnknownCitation": "unknown"}
+
+
+def wrapped_spans(out, n_ann):
+    """positions (in the text with the inserted strings removed) enclosed by each annotation"""
+    import re as _re
+    pos, res, open_at = 0, [], {}
+    for piece in _re.split(r"(\x01\d+\x02|\x03)", out):
+        if not piece:
+            continue
+        m = _re.fullmatch(r"\x01(\d+)\x02", piece)
+        if m:
+            open_at[len(res)] = pos
+            res.append([pos, pos])
+        elif piece == "\x03":
+            if res:
+                res[-1][1] = pos
+        else:
+            pos += len(piece)
+    return res, pos
+
+
+def run_pipeline(payload):
+    """One recorded session per document: for each tokenizer and remove_ambiguous setting:
+    get_citations -> resolve_citations -> annotate_citations in the three modes.
+    Every call is logged at its return, on the error path too."""
+    from eyecite import annotate_citations, resolve_citations
+    res = []
+    for it in payload["items"]:
+        text = it["text"]
+        events = []
+        for tok in it["toks"]:
+            for ra in (False, True):
+                ev = {"ev": "get_citations", "tok": tok, "ra": ra, "cites": [], "raised": ""}
+                try:
+                    cs = extract(text, tok, remove_ambiguous=ra)
+                    if not isinstance(cs, list):
+                        raise TypeError("get_citations did not return a list")
+                    ev["cites"] = [{"s": c.span()[0], "e": c.span()[1], "kind": KIND.get(type(c).__name__, "unknown")} for c in cs]
+                except Exception as ex:  # noqa: BLE001
+                    ev["raised"] = f"{type(ex).__name__}: {ex}"[:300]
+                    events.append(ev)
+                    events.append({"ev": "reset", "raised": ""})
+                    continue
+                events.append(ev)
+                ev = {"ev": "resolve", "groups": [], "raised": ""}
+                try:
+                    r = resolve_citations(cs)
+                    pos = {id(c): i + 1 for i, c in enumerate(cs)}
+                    ev["groups"] = [[pos.get(id(c), 0) for c in v] for v in r.values()]
+                    if not isinstance(r, dict):
+                        raise TypeError("resolve_citations did not return a mapping")
+                except Exception as ex:  # noqa: BLE001
+                    ev["raised"] = f"{type(ex).__name__}: {ex}"[:300]
+                events.append(ev)
+                for mode in ("unchecked", "skip", "wrap"):
+                    ev = {"ev": "annotate", "mode": mode, "wrapped": [], "exact": False, "raised": ""}
+                    try:
+                        anns = [(c.span(), f"\x01{k}\x02", "\x03") for k, c in enumerate(cs)]
+                        out = annotate_citations(text, anns, unbalanced_tags=mode)
+                        if not isinstance(out, str):
+                            raise TypeError("annotate_citations did not return a string")
+                        w, total = wrapped_spans(out, len(anns))
+                        ev["wrapped"] = w
+                        ev["exact"] = (mode == "unchecked" or ("<" not in text and ">" not in text)) and "\x01" not in text \
+                            and "\x03" not in text
+                        ev["stripped_len"] = total
+                    except Exception as ex:  # noqa: BLE001
+                        ev["raised"] = f"{type(ex).__name__}: {ex}"[:300]
+                    events.append(ev)
+                events.append({"ev": "reset", "raised": ""})
+        res.append({"n": len(text), "events": events})
+    return res
